@@ -4,6 +4,8 @@ import archlib
 
 def run_case(case, props):
     kind = case.get("kind")
+    if kind == "hooks":
+        return archlib.run_hooks(case, props)
     if kind == "sbr":
         from props import c15
         return archlib.guarded(c15.Run(case, props), props)
